@@ -562,6 +562,48 @@ fn f(k: felt252, v: u64) -> u64 {
     ("cover::felt_to_ints", "fn f(a: felt252) -> (Option<u8>, Option<u64>, Option<u128>, Option<i8>, Option<i128>) {
     (a.try_into(), a.try_into(), a.try_into(), a.try_into(), a.try_into())
 }"),
+    ("cover::circuit_inverse", "use core::circuit::{CircuitElement, CircuitInput, circuit_add, circuit_inverse, circuit_mul, EvalCircuitTrait, u96, CircuitOutputsTrait, CircuitModulus, AddInputResultTrait, CircuitInputs};
+fn f(a: u64, b: u64) -> u128 {
+    let in1 = CircuitElement::<CircuitInput<0>> {};
+    let in2 = CircuitElement::<CircuitInput<1>> {};
+    let sum = circuit_add(in1, in2);
+    let prod = circuit_mul(sum, in2);
+    let inv = circuit_inverse(prod);
+    let modulus = TryInto::<_, CircuitModulus>::try_into([7, 0, 0, 0]).unwrap();
+    let a96: u96 = core::internal::bounded_int::upcast(a);
+    let b96: u96 = core::internal::bounded_int::upcast(b);
+    match (inv,).new_inputs().next([a96, 0, 0, 0]).next([b96, 0, 0, 0]).done().eval(modulus) {
+        Ok(outputs) => core::internal::bounded_int::upcast::<u96, u128>(outputs.get_output(inv).limb0),
+        Err(_) => 1000,
+    }
+}
+fn g(a: u64) -> u128 {
+    let in1 = CircuitElement::<CircuitInput<0>> {};
+    let inv = circuit_inverse(in1);
+    let sq = circuit_mul(inv, inv);
+    let modulus = TryInto::<_, CircuitModulus>::try_into([7, 0, 0, 0]).unwrap();
+    let a96: u96 = core::internal::bounded_int::upcast(a);
+    match (sq,).new_inputs().next([a96, 0, 0, 0]).done().eval(modulus) {
+        Ok(outputs) => core::internal::bounded_int::upcast::<u96, u128>(outputs.get_output(sq).limb0),
+        Err(_) => 1000,
+    }
+}"),
+    ("cover::big_ap_branch", "#[inline(never)]
+fn f0(x: felt252) -> felt252 { x + 1 }
+#[inline(never)]
+fn f1(x: felt252) -> felt252 { f0(f0(f0(f0(f0(f0(f0(f0(x)))))))) }
+#[inline(never)]
+fn f2(x: felt252) -> felt252 { f1(f1(f1(f1(f1(f1(f1(f1(x)))))))) }
+#[inline(never)]
+fn f3(x: felt252) -> felt252 { f2(f2(f2(f2(f2(f2(f2(f2(x)))))))) }
+#[inline(never)]
+fn f4(x: felt252) -> felt252 { f3(f3(f3(f3(f3(f3(f3(f3(x)))))))) }
+#[inline(never)]
+fn f5(x: felt252) -> felt252 { f4(f4(f4(f4(f4(f4(f4(f4(x)))))))) }
+fn small(x: felt252) -> felt252 { if x == 0 { f2(x) } else { x } }
+fn mid(x: felt252) -> felt252 { if x == 0 { f4(f4(x)) } else { x } }
+fn big(x: felt252) -> felt252 { if x == 0 { f5(x) } else { x } }
+fn three_way(x: felt252) -> felt252 { if x == 0 { f4(f4(f4(x))) } else if x == 1 { f3(x) } else { x } }"),
     ("cover::ec", "use core::ec::{EcPointTrait, EcStateTrait};
 fn f(m: felt252, x: u8) -> felt252 {
     let p = match EcPointTrait::new_from_x(x.into()) { Some(p) => p, None => EcPointTrait::new_from_x(1).unwrap() };
